@@ -101,6 +101,9 @@ func tagIncludeParser(doc *Parser, start *Token, arguments *Parser) (INodeTag, *
 	staticName := arguments.PeekType(TokenString) != nil &&
 		(arguments.Remaining() == 1 || arguments.PeekTypeN(1, TokenIdentifier) != nil)
 
+	// the named file does not exist and the tag says if_exists
+	missing := false
+
 	if filenameToken := arguments.PeekType(TokenString); staticName {
 		// prepared, static template
 		arguments.Consume()
@@ -119,9 +122,12 @@ func tagIncludeParser(doc *Parser, start *Token, arguments *Parser) (INodeTag, *
 			// (only if it is this file that is missing, not one that it includes in turn, and
 			// not if it is there but cannot be read)
 			if e := err.(*Error); e.Sender == "fromfile" && e.Filename == includedFilename && e.OrigError == errTemplateNotFound && ifExists {
-				return &tagIncludeEmptyNode{}, nil
+				// (nothing will be rendered, but the rest of the tag is still parsed: its
+				// arguments are checked like those of any other tag)
+				missing = true
+			} else {
+				return nil, err.(*Error).updateFromTokenIfNeeded(doc.template, filenameToken)
 			}
-			return nil, err.(*Error).updateFromTokenIfNeeded(doc.template, filenameToken)
 		}
 		includeNode.tpl = includedTpl
 	} else {
@@ -166,6 +172,10 @@ func tagIncludeParser(doc *Parser, start *Token, arguments *Parser) (INodeTag, *
 
 	if arguments.Remaining() > 0 {
 		return nil, arguments.Error("Malformed 'include'-tag arguments.", nil)
+	}
+
+	if missing {
+		return &tagIncludeEmptyNode{}, nil
 	}
 
 	return includeNode, nil
